@@ -106,6 +106,8 @@ func runC02(c *Ctx) {
 	}
 	mispred, rounds := 0, 0
 	illegal := map[string]int{}
+	stalled := 0 // failing cases that ran into the 10 s limit: a server that stops answering is reported, not waited for 600 times
+pipes:
 	for pi := 0; pi < nProg; pi++ {
 		seed := c.Rng.Int63()
 		depth := 6 + int(seed>>8)%19
@@ -174,6 +176,12 @@ func runC02(c *Ctx) {
 				}
 				if res.timedOut {
 					c.Stat("timeouts")
+					if !ok {
+						if stalled++; stalled >= 12 {
+							c.Diag("c02 pipe: stopped after %d failing cases that ran into the time limit", stalled)
+							break pipes
+						}
+					}
 				}
 				c.Stat("cases_" + k.name())
 			}
